@@ -863,7 +863,13 @@ def rule_r3(facts, rep, rid="C01-R3"):
         else:
             rep.violation(rid, key, "project_list_item no longer walks %s (%s are lost)" % (need, what), f.loc)
     key = f.def_ + "|item-text"
-    if names.count("inlines") >= 1 and "push" in names:
+    cf_ = ctx(f)
+    ctors = [x for x in fb.walk(f.body) if x.get("k") == "call" and (fb.callee(x) or "").endswith(("GraphBlock::Para", "GraphBlock::Plain"))
+             and any(y.get("k") == "mcall" and y["name"] == "inlines" for a_ in x.get("args", []) for y in fb.walk(a_))]
+    # the text block is pushed onto the item, or the item is built around it (`vec![Para(iter.inlines())]` that the sub-blocks are appended to)
+    kept = [x for x in ctors if any(p_.get("k") in ("array", "let") or (p_.get("k") == "mcall" and p_["name"] in ("push", "insert")) or
+                                    (p_.get("k") == "call" and "vec" in str(p_.get("m") or "")) for p_ in cf_.parents(x))]
+    if names.count("inlines") >= 1 and (("push" in names and ctors) or kept):
         rep.ok(rid, key, "item text pushed", f.loc)
     else:
         rep.violation(rid, key, "list item's own text is not emitted", f.loc)
@@ -1226,14 +1232,19 @@ def rule_r6(facts, rep, rid="C01-R6"):
     ok = False
     # some string-building expression (format! / push_str / concat) combines the stored front matter - a value that comes from
     # `self.metadata.get(..)` / `self.metadata[..]`, in whatever idiom it is looked up - with the rendered body
-    for x in fb.walk(tm.body):
+    # the combination may sit in a helper of Graph (`self.with_front_matter(key, body)`): look at the fn with its own type's helpers expanded as well
+    from vlib import inline as _inl
+    tm_x = _inl.expanded(facts, tm)
+    cands_ = [(tm, c)] + ([(tm_x, ctx(tm_x))] if tm_x is not tm else [])
+    for tm_, c_ in cands_:
+      for x in fb.walk(tm_.body):
         if x.get("k") not in ("call", "mcall", "binary"):
             continue
         cal = fb.callee(x) or ""
         if x.get("k") in ("call", "mcall") and not (cal.endswith("fmt::format") or cal.endswith("::push_str") or cal.endswith("::concat") or cal.endswith("::join")):
             continue
-        pv = c.vprov(x)
-        at = c.mentions(x)
+        pv = c_.vprov(x)
+        at = c_.mentions(x)
         has_meta = ("field", "metadata") in at or any(a == ("field", "metadata") for a in pv)
         looked_up = q.has_call(pv, "HashMap::get") or q.has_call(at, "HashMap::get") or any(y.get("k") == "index" for y in fb.walk(x))
         has_body = q.has_call(pv, "NodeIter::to_markdown") or q.has_call(at, "NodeIter::to_markdown")
